@@ -2,6 +2,7 @@ package rules
 
 import (
 	"fmt"
+	"go/types"
 	"path/filepath"
 	"strings"
 
@@ -161,10 +162,11 @@ func runC15(c *Ctx) {
 			}
 			// restore side: the field of the decoded snapshot reaches the object before Update
 			okR := false
-			for _, b := range restore.Blocks {
-				for _, in := range b.Instrs {
+			for _, pr := range withHelperInstrs(restore) {
+				{
+					in := pr.site
 					var val ssa.Value
-					switch x := in.(type) {
+					switch x := pr.in.(type) {
 					case *ssa.MapUpdate:
 						val = x.Value
 					case ssa.CallInstruction:
@@ -248,6 +250,10 @@ func runC15(c *Ctx) {
 				ok := false
 				if f == "CanaryWeight" {
 					ok = t.Op != "binop" && t.Op != "const"
+					// the "no weight" marker written directly, where the step configures no traffic
+					if t.Op == "const" && t.Name == "-1" && HasFact(FactsAtInstr(st), FNil(MField("Traffic"))) {
+						ok = true
+					}
 				} else {
 					ok = t.Op == "binop" && t.Name == "-" && t.Args[0].Op == "const" && t.Args[0].Name == "100"
 				}
@@ -321,6 +327,11 @@ func rootOf(v ssa.Value) ssa.Value {
 // fieldLoadOf reports whether v is (a conversion of) a load of field f of some local struct cell.
 func fieldLoadOf(v ssa.Value, f string) bool {
 	for x := range BackwardSlice(v) {
+		if fv, ok := x.(*ssa.Field); ok {
+			if st, isSt := fv.X.Type().Underlying().(*types.Struct); isSt && fv.Field < st.NumFields() && st.Field(fv.Field).Name() == f {
+				return true
+			}
+		}
 		if fa, ok := x.(*ssa.FieldAddr); ok {
 			if n, _ := FieldOf(fa); n == f {
 				if _, isAlloc := fa.X.(*ssa.Alloc); isAlloc {
@@ -330,4 +341,36 @@ func fieldLoadOf(v ssa.Value, f string) bool {
 		}
 	}
 	return false
+}
+
+// instrAt pairs an instruction with the instruction of the examined function it is accounted at:
+// itself, or — for an instruction of a same-package helper — the call of that helper.
+type instrAt struct {
+	in   ssa.Instruction
+	site ssa.Instruction
+}
+
+// withHelperInstrs lists fn's instructions and those of the same-package functions it calls
+// directly (one level), the latter accounted at their call site.
+func withHelperInstrs(fn *ssa.Function) []instrAt {
+	var out []instrAt
+	for _, b := range fn.Blocks {
+		for _, in := range b.Instrs {
+			out = append(out, instrAt{in, in})
+			ci, ok := in.(ssa.CallInstruction)
+			if !ok {
+				continue
+			}
+			h := ci.Common().StaticCallee()
+			if h == nil || h == fn || h.Pkg != fn.Pkg || len(h.Blocks) == 0 {
+				continue
+			}
+			for _, hb := range h.Blocks {
+				for _, hin := range hb.Instrs {
+					out = append(out, instrAt{hin, in})
+				}
+			}
+		}
+	}
+	return out
 }
